@@ -39,11 +39,11 @@ ASSUMPTIONS = ['indentwidth is an integer (0-8 in the monitor domain); programs 
                'interior lines of multi-line block comments and long strings are token content, not layout: re-indentations leave them alone',
                'blank lines before the first line of the file are not "separating lines" (the output may start with up to two)']
 CLAIM = dict(
-    text=("Thirteen theorems in Properties/C10.v (Coq, closed under the global context) about fmt_run, the model of the 15-step re.sub "
+    text=("Fourteen theorems in Properties/C10.v (Coq, closed under the global context) about fmt_run, the model of the 15-step re.sub "
           "pipeline of LuaFormatterWriter._get_code_for_spaces, for white-space/comment runs of EVERY length, every indent width and "
           "depth, at the start / middle / end of the file: C10_run_canonical_form (exact line-by-line form of the output), "
           "C10_run_depends_on_norm (runs equal modulo blanks at line edges are formatted identically: re-indentation invariance "
-          "of a run), C10_run_indent (the token after the run sits at exactly indentwidth x depth spaces), "
+          "of a run; C10_run_depends_on_norm_end: at the end of the file also modulo the blanks that end the last line), C10_run_indent (the token after the run sits at exactly indentwidth x depth spaces), "
           "C10_run_no_trailing_blank, C10_run_blank_lines (never three line feeds in a row), C10_run_end_of_file, "
           "C10_run_keeps_comment_text (only white space moves), C10_run_idempotent (formatting a formatted run changes "
           "nothing); and four theorems about the whole output as a list of writer chunks (C10_indent_partial, C10_first_line_partial, "
